@@ -315,6 +315,7 @@ def explore(ctx):
                                                 tie.coq_structs(impl.structs_view(d2, tuple(c['shape'])))))
             lmeta.append(info)
         special_files(ctx, tmpdir)
+        listed_findings(ctx, tmpdir)
         big_cases(ctx, tmpdir)
         byte_order_and_big_integers(ctx, tmpdir)
         format_table(ctx, tmpdir)
@@ -391,6 +392,41 @@ def special_files(ctx, tmpdir):
             ctx.case_done(None, ('special', kind, fmt, it) if len(d) >= 2 else None)
             if fails:
                 ctx.oracle_failure(dict(info, file=name), fails, {})
+
+
+def listed_findings(ctx, tmpdir):
+    """The minimal inputs of the known findings K3, K6, K7 (known_findings.json) run first, on every run, so that each
+    listed finding is reported while it exists (and silently stops being reported once it is repaired)."""
+    arr = np.array([[1., 5., 2.], [3., 1., 4.]])
+    # K3: FITS, wcs=None comes back as a blank WCS; K6: a parameter longer than 20 characters in a FITS card
+    for tag, kw in (('K3', {}), ('K6', {'min_value': 1.2345678901234568e-05})):
+        try:
+            d = Dendrogram.compute(arr.copy(), **kw)
+            d2 = roundtrip(d, 'fits', 'explicit', False, tmpdir)
+            c = {'shape': [2, 3], 'vals': [1, 5, 2, 3, 1, 4], 'scale': 0}
+            fails, tags = compare_loaded(c, d, d2, 'fits', False)
+            if tag in tags:
+                ctx.oracle_failure({'stream': 'listed findings', 'finding': tag, 'data': arr.tolist(), 'parameters': {k_: repr(v_) for k_, v_ in kw.items()}, 'format': 'fits'},
+                                   [TAG_TEXT[tag]], {'tag': tag})
+        except Exception as e:
+            ctx.oracle_failure({'stream': 'listed findings', 'finding': tag}, ['raised %r' % (e,)], {})
+        ctx.case_done(None, ('listed', tag))
+    # K7: HDF5 cannot store the default threshold of int64 data that contains the smallest int64
+    vals = [-2 ** 63, -2 ** 63 + 5, -2 ** 63 + 2, -2 ** 63 + 7]
+    try:
+        d = Dendrogram.compute(np.array(vals, dtype=np.int64))
+        try:
+            roundtrip(d, 'hdf5', 'explicit', False, tmpdir)
+        except TypeError as e:
+            mv = d.params.get('min_value')
+            if 'no native HDF5 equivalent' in str(e) and isinstance(mv, int) and not (-2 ** 63 <= mv < 2 ** 64):
+                ctx.oracle_failure({'stream': 'listed findings', 'finding': 'K7', 'data': vals, 'dtype': 'int64', 'min_value': 'default', 'format': 'hdf5'},
+                                   ['save/load raised %r' % (e,)], {'tag': 'K7', 'exc': 'TypeError'})
+            else:
+                ctx.oracle_failure({'stream': 'listed findings', 'finding': 'K7'}, ['save/load raised %r' % (e,)], {})
+    except Exception as e:
+        ctx.oracle_failure({'stream': 'listed findings', 'finding': 'K7'}, ['raised %r' % (e,)], {})
+    ctx.case_done(None, ('listed', 'K7'))
 
 
 def byte_order_and_big_integers(ctx, tmpdir):
